@@ -7,6 +7,7 @@ Every compound expression contains a variable, so that constant folding (which n
 `[1, 2.5][0]`, and reports failing constant operations at parse time) never applies: the static type the
 implementation reports for the program is then the checker's own."""
 from gen.programs import INT, BOOL, STR, FLOAT, VOID, tup, arr, multi
+from gen import ast as A
 
 I = lambda n: ("i", n)
 V = lambda x: ("id", x)
@@ -34,6 +35,19 @@ def has_var(e):
     if isinstance(e, list):
         return any(has_var(x) for x in e)
     return False
+
+
+def opaque_set(x, rhs):
+    """a declaration whose right side is a constant expression would make the name a constant the folder propagates
+    (`y := true; if y {..} else {..}` is typed by its first branch only): put the constant behind an opaque condition"""
+    if has_var(rhs):
+        return rhs
+    return ("if", V("pb"), ("block", [rhs]), ("block", [rhs]))
+
+
+def normal(stmts):
+    """control-flow constructs into statement positions, declared names opaque"""
+    return A.hoist(stmts, on_set=opaque_set)
 
 
 class Gen:
@@ -94,31 +108,55 @@ class Gen:
             e = ("block", self.stmts(list(names), d - 1, r.randint(0, 3)))
         return self.fix(e, names)
 
+    def rec(self, e, t):
+        """remember the type an operand was generated at (so that `fix` can replace it by a variable of that type)"""
+        if not hasattr(self, "_ty"):
+            self._ty = {}
+        self._ty[id(e)] = (e, t)
+        return e
+
+    def vleaf(self, names, env, old):
+        if env is None:
+            return self.leaf(names, True)
+        got = getattr(self, "_ty", {}).get(id(old))
+        if got is None or got[0] is not old:
+            return old
+        cands = [n for n, t in env if t == got[1]]
+        return V(self.rnd.choice(cands)) if cands else old
+
     def fix(self, e, names):
-        """every operator application must contain a variable (nothing for the folder to evaluate)"""
+        """every operator application must contain a variable (nothing for the folder to evaluate); `names` is a list of
+        names (untyped generation) or an environment of (name, type) (the replacement then keeps the operand's type)"""
+        env = None
+        if names and isinstance(names[0], tuple):
+            env = names
+            names = [n for n, _ in env]
         k = e[0]
-        if k in ("bin", "and", "or"):
+        if k in ("and", "or"):
+            if not has_var(e[1]):       # a constant left operand is folded away (`true || x` is `true`)
+                e = (k, self.vleaf(names, env, e[1]), e[2])
+        elif k == "bin":
             if not (has_var(e[-2]) or has_var(e[-1])):
-                e = e[:-1] + (self.leaf(names, True),)
+                e = e[:-1] + (self.vleaf(names, env, e[-1]),)
             # both operands constant-free is not required; but an operand that is itself a constant-only compound was fixed below
         elif k == "pre":
             if not has_var(e[2]):
-                e = (k, e[1], self.leaf(names, True))
+                e = (k, e[1], self.vleaf(names, env, e[2]))
         elif k == "at":
             if not has_var(e[1]):
-                e = (k, self.leaf(names, True), e[2])
+                e = (k, self.vleaf(names, env, e[1]), e[2])
         elif k == "tacc":
             if not has_var(e[1]):
-                e = (k, self.leaf(names, True), e[2])
+                e = (k, self.vleaf(names, env, e[1]), e[2])
         elif k == "if":
             if not has_var(e[1]):
                 e = (k, ("bin", "eq", self.leaf(names, True), e[1]), e[2], e[3])
         elif k == "slice":
             if not has_var(e[1]):
-                e = (k, self.leaf(names, True)) + e[2:]
+                e = (k, self.vleaf(names, env, e[1])) + e[2:]
         elif k == "repeat":
             if not has_var(e[2]):
-                e = (k, e[1], self.leaf(names, True))
+                e = (k, e[1], self.vleaf(names, env, e[2]))
         elif k == "ifset":
             if not has_var(e[3]):
                 e = e[:3] + (self.leaf(names, True),) + e[4:]
@@ -143,8 +181,8 @@ class Gen:
             if vars_ and r.random() < 0.8:
                 return V(r.choice(vars_))
             return lit
-        sub = lambda t: self.typed(t, env, d - 1, noise)
-        anyv = lambda: V(r.choice([n for n, _ in env]))
+        sub = lambda t: self.rec(self.typed(t, env, d - 1, noise), t)
+        anyv = lambda: V(r.choice(env))
         if ty == INT:
             lit = I(r.choice([0, 1, 2, -1, 63, 64, 7]))
             if d <= 0:
@@ -153,31 +191,31 @@ class Gen:
             if k == "v":
                 return var_or(lit)
             if k == "arith":
-                return self.fix(("bin", r.choice(["add", "sub", "mul", "div", "mod", "pow", "shl", "shr"]), sub(INT), sub(INT)), [n for n, _ in env])
+                return self.fix(("bin", r.choice(["add", "sub", "mul", "div", "mod", "pow", "shl", "shr"]), sub(INT), sub(INT)), env)
             if k == "bit":
-                return self.fix(("bin", r.choice(["band", "bor", "bxor"]), sub(INT), sub(INT)), [n for n, _ in env])
+                return self.fix(("bin", r.choice(["band", "bor", "bxor"]), sub(INT), sub(INT)), env)
             if k == "at":
-                return self.fix(("at", sub(arr(INT)), sub(INT)), [n for n, _ in env])
+                return self.fix(("at", sub(arr(INT)), sub(INT)), env)
             if k == "tacc":
-                return self.fix(("tacc", sub(tup(INT, STR)), 0), [n for n, _ in env])
+                return self.fix(("tacc", sub(tup(INT, STR)), 0), env)
             if k == "neg":
-                return self.fix(("pre", r.choice(["neg", "not"]), sub(INT)), [n for n, _ in env])
+                return self.fix(("pre", r.choice(["neg", "not"]), sub(INT)), env)
             if k == "block":
                 return self.tblock(INT, env, d - 1, noise)
-            return self.fix(("if", sub(BOOL), self.tblock(INT, env, d - 1, noise), self.tblock(INT, env, d - 1, noise)), [n for n, _ in env])
+            return self.fix(("if", sub(BOOL), self.tblock(INT, env, d - 1, noise), self.tblock(INT, env, d - 1, noise)), env)
         if ty == FLOAT:
             lit = ("f", r.choice([0.0, 1.5, -2.0]))
             if d <= 0:
                 return var_or(lit)
             k = r.choice(["v", "arith", "neg", "at", "if"])
             if k == "arith":
-                return self.fix(("bin", r.choice(["add", "sub", "mul", "div", "pow"]), sub(FLOAT), sub(FLOAT)), [n for n, _ in env])
+                return self.fix(("bin", r.choice(["add", "sub", "mul", "div", "pow"]), sub(FLOAT), sub(FLOAT)), env)
             if k == "neg":
-                return self.fix(("pre", "neg", sub(FLOAT)), [n for n, _ in env])
+                return self.fix(("pre", "neg", sub(FLOAT)), env)
             if k == "at":
-                return self.fix(("at", sub(arr(FLOAT)), sub(INT)), [n for n, _ in env])
+                return self.fix(("at", sub(arr(FLOAT)), sub(INT)), env)
             if k == "if":
-                return self.fix(("if", sub(BOOL), self.tblock(FLOAT, env, d - 1, noise), self.tblock(FLOAT, env, d - 1, noise)), [n for n, _ in env])
+                return self.fix(("if", sub(BOOL), self.tblock(FLOAT, env, d - 1, noise), self.tblock(FLOAT, env, d - 1, noise)), env)
             return var_or(lit)
         if ty == BOOL:
             lit = (r.choice(["true", "false"]),)
@@ -186,15 +224,15 @@ class Gen:
             k = r.choice(["v", "cmp", "cmp", "eq", "and", "not", "bit"])
             if k == "cmp":
                 t = r.choice([INT, FLOAT])
-                return self.fix(("bin", r.choice(["lt", "le", "gt", "ge"]), sub(t), sub(t)), [n for n, _ in env])
+                return self.fix(("bin", r.choice(["lt", "le", "gt", "ge"]), sub(t), sub(t)), env)
             if k == "eq":
-                return self.fix(("bin", r.choice(["eq", "ne"]), sub(r.choice(self.TYPES)), sub(r.choice(self.TYPES))), [n for n, _ in env])
+                return self.fix(("bin", r.choice(["eq", "ne"]), sub(r.choice(self.TYPES)), sub(r.choice(self.TYPES))), env)
             if k == "and":
-                return self.fix((r.choice(["and", "or"]), sub(BOOL), sub(BOOL)), [n for n, _ in env])
+                return self.fix((r.choice(["and", "or"]), sub(BOOL), sub(BOOL)), env)
             if k == "not":
-                return self.fix(("pre", "not", sub(BOOL)), [n for n, _ in env])
+                return self.fix(("pre", "not", sub(BOOL)), env)
             if k == "bit":
-                return self.fix(("bin", r.choice(["band", "bor", "bxor"]), sub(BOOL), sub(BOOL)), [n for n, _ in env])
+                return self.fix(("bin", r.choice(["band", "bor", "bxor"]), sub(BOOL), sub(BOOL)), env)
             return var_or(lit)
         if ty == STR:
             lit = ("s", r.choice(["", "a", "żó"]))
@@ -203,19 +241,19 @@ class Gen:
             k = r.choice(["v", "add", "at", "tacc", "if", "slice"])
             if k == "slice":
                 return self.fix(("slice", sub(STR), sub(INT) if r.random() < 0.6 else None, sub(INT) if r.random() < 0.5 else None,
-                                 sub(INT) if r.random() < 0.4 else None), [n for n, _ in env])
+                                 sub(INT) if r.random() < 0.4 else None), env)
             if k == "add":
-                return self.fix(("bin", "add", sub(STR), sub(STR)), [n for n, _ in env])
+                return self.fix(("bin", "add", sub(STR), sub(STR)), env)
             if k == "at":
-                return self.fix(("at", sub(STR), sub(INT)), [n for n, _ in env])
+                return self.fix(("at", sub(STR), sub(INT)), env)
             if k == "tacc":
-                return self.fix(("tacc", sub(tup(INT, STR)), 1), [n for n, _ in env])
+                return self.fix(("tacc", sub(tup(INT, STR)), 1), env)
             if k == "if":
-                return self.fix(("if", sub(BOOL), self.tblock(STR, env, d - 1, noise), self.tblock(STR, env, d - 1, noise)), [n for n, _ in env])
+                return self.fix(("if", sub(BOOL), self.tblock(STR, env, d - 1, noise), self.tblock(STR, env, d - 1, noise)), env)
             return var_or(lit)
         if ty == VOID:
             if d > 0 and r.random() < 0.4:
-                return self.fix(("if", sub(BOOL), self.tblock(r.choice(self.TYPES), env, d - 1, noise), None), [n for n, _ in env])
+                return self.fix(("if", sub(BOOL), self.tblock(VOID, env, d - 1, noise), None), env)
             return var_or(("unit",))
         if ty[0] == "arr":
             if d <= 0:
@@ -223,15 +261,15 @@ class Gen:
             k = r.choice(["v", "lit", "lit", "add", "if", "slice", "repeat"])
             if k == "slice":
                 return self.fix(("slice", sub(ty), sub(INT) if r.random() < 0.6 else None, sub(INT) if r.random() < 0.5 else None,
-                                 sub(INT) if r.random() < 0.4 else None), [n for n, _ in env])
+                                 sub(INT) if r.random() < 0.4 else None), env)
             if k == "repeat":
-                return self.fix(("repeat", sub(ty[1]), sub(INT)), [n for n, _ in env])
+                return self.fix(("repeat", sub(ty[1]), sub(INT)), env)
             if k == "lit":
                 return ("array", [sub(ty[1]) for _ in range(r.randint(0, 3))])
             if k == "add":
-                return self.fix(("bin", "add", sub(ty), sub(ty)), [n for n, _ in env])
+                return self.fix(("bin", "add", sub(ty), sub(ty)), env)
             if k == "if":
-                return self.fix(("if", sub(BOOL), self.tblock(ty, env, d - 1, noise), self.tblock(ty, env, d - 1, noise)), [n for n, _ in env])
+                return self.fix(("if", sub(BOOL), self.tblock(ty, env, d - 1, noise), self.tblock(ty, env, d - 1, noise)), env)
             return var_or(("array", [sub(ty[1])]))
         if ty[0] == "tup":
             if d <= 0 or r.random() < 0.3:
@@ -242,7 +280,7 @@ class Gen:
             if d <= 0 or r.random() < 0.3:
                 return var_or(self.typed(r.choice(ms), env, 0, noise))
             a, b = r.sample(ms, 2) if len(ms) >= 2 else (ms[0], ms[0])
-            return self.fix(("if", sub(BOOL), self.tblock(a, env, d - 1, noise), self.tblock(b, env, d - 1, noise)), [n for n, _ in env])
+            return self.fix(("if", sub(BOOL), self.tblock(a, env, d - 1, noise), self.tblock(b, env, d - 1, noise)), env)
         return anyv()
 
     def narrow(self, ty, env, d, noise, unions):
@@ -325,9 +363,9 @@ class GenF(Gen):
             # an early return in a branch
             out.append(("if", self.ftyped(BOOL, benv, d - 1, noise), ("block", [("return", self.ftyped(rt, benv, d - 1, noise) if rt != VOID or r.random() < 0.5 else None)]), None))
         k = r.random()
-        if k < 0.75:
+        if k < 0.8 or (k < 0.95 and d <= 0):
             out.append(("return", self.ftyped(rt, benv, d, noise) if (rt != VOID or r.random() < 0.5) else None))
-        elif k < 0.85 and d > 0:
+        elif k < 0.95:
             out.append(("if", self.ftyped(BOOL, benv, d - 1, noise), ("block", [("return", self.ftyped(rt, benv, d - 1, noise))]),
                         ("block", [("return", self.ftyped(rt, benv, d - 1, noise))])))
         else:
@@ -376,6 +414,113 @@ class GenF(Gen):
             env = body_env
         blk = self.tblock(r.choice(self.TYPES), env, depth, noise)
         return out + blk[1]
+
+
+from gen.programs import cell as _cell
+
+FREE_S = FREE + [
+    ("ci", _cell(INT), ("mut", INT, I(4))), ("cf", _cell(FLOAT), ("mut", FLOAT, ("f", 0.5))), ("cs", _cell(STR), ("mut", STR, ("s", "c"))),
+    ("cb", _cell(BOOL), ("mut", BOOL, ("false",))), ("ca", _cell(arr(INT)), ("mut", arr(INT), ("array", [I(1)]))),
+    ("cu", _cell(multi(INT, STR)), ("mut", multi(INT, STR), I(2))),
+]
+
+
+class GenS(GenF):
+    """the fragment plus functions plus mutable cells and loops"""
+    CELLS = {"ci": INT, "cf": FLOAT, "cs": STR, "cb": BOOL, "ca": arr(INT), "cu": multi(INT, STR)}
+    COMPOUND = {"int": ["add", "sub", "mul", "div", "mod", "pow", "shl", "shr", "band", "bor", "bxor"], "float": ["add", "sub", "mul", "div", "pow"],
+                "str": ["add"], "bool": ["band", "bor", "bxor"]}
+
+    def cell_stmt(self, env, d, noise):
+        """a statement that reads / writes a cell (mostly well-typed)"""
+        r = self.rnd
+        cells = [(n, t[1]) for n, t in env if t[0] == "cell"]
+        if not cells:
+            return self.ftyped(r.choice(self.TYPES), env, d, noise)
+        n, ct = r.choice(cells)
+        k = r.random()
+        vt = ct if r.random() > noise else r.choice(self.TYPES)
+        if k < 0.35:
+            return ("assign", "set", V(n), self.ftyped(vt, env, d, noise))
+        if k < 0.75:
+            key = ct[0] if ct[0] in self.COMPOUND else None
+            ops = self.COMPOUND.get(key, ["add"]) if r.random() > noise else ["add", "sub", "shl", "band", "pow"]
+            if ct[0] == "multi" and r.random() > noise + 0.03:
+                ops = ["set"]                   # a compound assignment to a union-typed cell is (almost always) rejected
+            return ("assign", r.choice(ops), V(n), self.ftyped(vt, env, d, noise))
+        if k < 0.85:
+            x = r.choice(["x", "y", "cz"])
+            return ("set", x, ("mut", ct, self.ftyped(vt, env, d, noise)))
+        return ("pre", "deref", V(n))
+
+    def loop_stmt(self, env, d, noise):
+        r = self.rnd
+        body = []
+        for _ in range(r.randint(0, 2)):
+            body.append(self.cell_stmt(env, d - 1, noise) if r.random() < 0.6 else self.ftyped(r.choice(self.TYPES), env, d - 1, noise))
+        if r.random() < 0.5:
+            body.append(("if", self.ftyped(BOOL, env, d - 1, noise), ("block", [(r.choice(["break", "continue"]),)]), None))
+        body.append(("break",))
+        k = r.random()
+        if k < 0.4:
+            return ("loop", ("block", body))
+        if k < 0.8:
+            return ("while", self.ftyped(BOOL, env, d - 1, noise), ("block", body))
+        unions = [(n, t) for n, t in env if t[0] == "multi"]
+        if unions:
+            u, ut = r.choice(unions)
+            return ("whileset", r.choice(["x", "y"]), r.choice(list(ut[1])), V(u), ("block", body))
+        return ("loop", ("block", body))
+
+    def typed(self, ty, env, d, noise=0.08):
+        r = self.rnd
+        if ty[0] == "cell":
+            cs = [n for n, t in env if t == ty]
+            return V(r.choice(cs)) if cs else ("mut", ty[1], self.ftyped(ty[1], env, max(d - 1, 0), noise))
+        if d > 0 and getattr(self, "_ins", 0) == 0:
+            cells = [n for n, t in env if t[0] == "cell" and t[1] == ty]
+            if cells and r.random() < 0.2:
+                return ("pre", "deref", V(r.choice(cells)))
+            if cells and r.random() < 0.08:
+                self._ins = 1
+                try:
+                    return ("assign", "set", V(r.choice(cells)), self.ftyped(ty, env, d - 1, noise))
+                finally:
+                    self._ins = 0
+            if ty == VOID and r.random() < 0.25:
+                return self.loop_stmt(env, d, noise)
+        return GenF.typed(self, ty, env, d, noise)
+
+    def sprogram(self, depth=3, noise=0.08):
+        r = self.rnd
+        env = [(n, t) for n, t, _ in FREE_S]
+        out = []
+        for _ in range(r.randint(0, 2)):
+            fname = r.choice(["f", "g", "h"])
+            ps = [(r.choice(["a", "b", "c", "pi"]), r.choice(self.FTYPES[:6] + [_cell(INT)])) for _ in range(r.randint(0, 3))]
+            ps = list({n: (n, t) for n, t in ps}.values())
+            rt = r.choice(self.FTYPES)
+            ft = ("fn", tuple(t for _, t in ps), rt)
+            body_env = [(fname, ft)] + [(n, t) for n, t in env if n != fname]
+            out.append(("fndecl", fname, ps, rt, self.fn_body(ps, rt, body_env, depth - 1, noise, fname)))
+            env = body_env
+        for _ in range(r.randint(1, 4)):
+            k = r.random()
+            if k < 0.45:
+                out.append(self.cell_stmt(env, depth - 1, noise))
+            elif k < 0.7:
+                out.append(self.loop_stmt(env, depth - 1, noise))
+            else:
+                t = r.choice(self.TYPES)
+                x = r.choice(["x", "y", "z"])
+                out.append(("set", x, self.ftyped(t, env, depth - 1, noise)))
+                env = [(x, t)] + [(n, tt) for n, tt in env if n != x]
+        out.append(self.ftyped(r.choice(self.TYPES), env, depth, noise))
+        return out
+
+
+def prelude_s():
+    return [("set", n, ("pre", "deref", ("mut", t, v))) for n, t, v in FREE_S]
 
 
 def prelude():
